@@ -178,6 +178,22 @@ def tzx_element_bytes(e):
             return [b'\x5a' + b'XTape!\x1a\x01\x14']
         if v == 'stop48':
             return [b'\x2a' + w32(0)]
+        # blocks that carry no signal and that skoolkit lists without acting on them; what matters here is that the
+        # reader steps over exactly their length (TZX 1.20: 0x23 jump, 0x26 call sequence, 0x27 return, 0x28 select,
+        # 0x34 emulation info, 0x40 snapshot)
+        if v == 'jump':
+            return [b'\x23' + w16(e['n'] & 0xFFFF)]
+        if v == 'call':
+            return [b'\x26' + w16(len(e['offsets'])) + b''.join(w16(o & 0xFFFF) for o in e['offsets'])]
+        if v == 'return':
+            return [b'\x27']
+        if v == 'select':
+            body = bytes((len(e['items']),)) + b''.join(w16(o & 0xFFFF) + bytes((len(x),)) + x for o, x in e['items'])
+            return [b'\x28' + w16(len(body)) + body]
+        if v == 'emulation':
+            return [b'\x34' + bytes(e['raw8'])]
+        if v == 'snapshot':
+            return [b'\x40' + bytes((e['type'],)) + w24(len(e['blob'])) + bytes(e['blob'])]
     raise ValueError('unknown element %r' % (e,))
 
 def tzx_bytes(elements, minor=20):
@@ -255,6 +271,18 @@ def parse_tzx(raw):
             i += 2
         elif bid == 0x25:
             loop = ('end',)
+        elif bid == 0x23:
+            i += 2
+        elif bid == 0x26:
+            i += 2 + 2 * r16(raw, i)
+        elif bid == 0x27:
+            pass
+        elif bid == 0x28:
+            i += 2 + r16(raw, i)
+        elif bid == 0x34:
+            i += 8
+        elif bid == 0x40:
+            i += 4 + r24(raw, i + 1)
         elif bid == 0x2A:
             stop = '48k'
             i += 4 + r32(raw, i)
